@@ -1,0 +1,140 @@
+//go:build verif
+// +build verif
+
+// Contracts for package tcp, read only by the verifier in /verif (build tag verif).
+// This file contains no code.
+//
+// Sequence numbers are uint32 and every comparison below is serial-number arithmetic
+// (modulo 2^32): a contract proved here holds wherever the initial sequence numbers lie.
+
+package tcp
+
+// ---------------------------------------------------------------------------
+// segment helpers
+
+//@ func (*segment).flagIsSet props C01 C02 C03 C04 C05
+//@   ensures result == (s.flags & flag != 0)
+
+//@ func (*segment).logicalLen props C01 C02 C03 C04 C05
+//@   ensures result == seqnum.Size(s.data.size) + ite(s.flags & flagSyn != 0, seqnum.Size(1), seqnum.Size(0)) + ite(s.flags & flagFin != 0, seqnum.Size(1), seqnum.Size(0))
+
+// ---------------------------------------------------------------------------
+// Reno congestion control (RFC 5681). packetsAcked counts newly acknowledged segments.
+
+// Slow start grows the window by at most one segment per acknowledged segment and never
+// past ssthresh; the unused part of the acknowledgement count is returned.
+//@ func (*renoState).updateSlowStart props C05
+//@   requires r.s != nil && 0 <= packetsAcked && packetsAcked <= 1 << 40
+//@   requires 1 <= r.s.sndCwnd && r.s.sndCwnd <= 1 << 40 && r.s.sndCwnd < r.s.sndSsthresh
+//@   ensures old(r.s.sndCwnd) <= r.s.sndCwnd && r.s.sndCwnd <= old(r.s.sndCwnd) + packetsAcked && r.s.sndCwnd <= r.s.sndSsthresh
+//@   ensures 0 <= result && result == packetsAcked - (r.s.sndCwnd - old(r.s.sndCwnd))
+//@   ensures implies(r.s.sndCwnd < r.s.sndSsthresh, result == 0)
+//@   ensures implies(result != 0, r.s.sndCAAckCount == 0)
+//@   ensures r.s.sndCAAckCount == 0 || r.s.sndCAAckCount == old(r.s.sndCAAckCount)
+//@   modifies r.s.sndCwnd, r.s.sndCAAckCount
+
+// Congestion avoidance: the window never shrinks, and while the acknowledgement counter was
+// below the window on entry it grows by at most one segment per acknowledged segment.
+//@ func (*renoState).updateCongestionAvoidance props C05
+//@   requires r.s != nil && 0 <= packetsAcked && packetsAcked <= 1 << 40
+//@   requires 1 <= r.s.sndCwnd && r.s.sndCwnd <= 1 << 42 && 0 <= r.s.sndCAAckCount && r.s.sndCAAckCount <= 1 << 42
+//@   ensures old(r.s.sndCwnd) <= r.s.sndCwnd && 0 <= r.s.sndCAAckCount
+//@   ensures implies(old(r.s.sndCAAckCount) < old(r.s.sndCwnd), r.s.sndCwnd <= old(r.s.sndCwnd) + packetsAcked)
+//@   ensures r.s.sndCwnd <= old(r.s.sndCwnd) + old(r.s.sndCAAckCount) + packetsAcked
+//@   modifies r.s.sndCwnd, r.s.sndCAAckCount
+
+//@ func (*renoState).reduceSlowStartThreshold props C05
+//@   requires r.s != nil
+//@   ensures r.s.sndSsthresh >= 2 && (r.s.sndSsthresh == old(r.s.outstanding) / 2 || r.s.sndSsthresh == 2)
+//@   modifies r.s.sndSsthresh
+
+//@ func (*renoState).Update props C05
+//@   requires r.s != nil && 0 <= packetsAcked && packetsAcked <= 1 << 40
+//@   requires 1 <= r.s.sndCwnd && r.s.sndCwnd <= 1 << 40 && 0 <= r.s.sndCAAckCount && r.s.sndCAAckCount <= 1 << 40
+//@   ensures old(r.s.sndCwnd) <= r.s.sndCwnd && 0 <= r.s.sndCAAckCount
+//@   ensures r.s.sndCwnd <= old(r.s.sndCwnd) + old(r.s.sndCAAckCount) + packetsAcked
+//@   ensures implies(old(r.s.sndCAAckCount) < old(r.s.sndCwnd) || old(r.s.sndCwnd) < old(r.s.sndSsthresh), r.s.sndCwnd <= old(r.s.sndCwnd) + packetsAcked)
+//@   modifies r.s.sndCwnd, r.s.sndCAAckCount
+
+//@ func (*renoState).HandleNDupAcks props C05
+//@   requires r.s != nil
+//@   ensures r.s.sndSsthresh >= 2 && (r.s.sndSsthresh == old(r.s.outstanding) / 2 || r.s.sndSsthresh == 2)
+//@   modifies r.s.sndSsthresh
+
+// After a retransmission timeout the window is one segment.
+//@ func (*renoState).HandleRTOExpired props C05
+//@   requires r.s != nil
+//@   ensures r.s.sndCwnd == 1 && r.s.sndSsthresh >= 2
+//@   modifies r.s.sndSsthresh, r.s.sndCwnd
+
+//@ func (*renoState).PostRecovery props C05
+
+// ---------------------------------------------------------------------------
+// Retransmission timer state machine: expiry is reported only in state enabled.
+
+//@ func (*timer).enabled props C02 C05
+//@   ensures result == (t.state == timerStateEnabled)
+
+//@ func (*timer).disable props C02 C05
+//@   ensures implies(old(t.state) == timerStateDisabled, t.state == timerStateDisabled)
+//@   ensures implies(old(t.state) != timerStateDisabled, t.state == timerStateOrphaned)
+//@   modifies t.state
+
+// An orphaned runtime timer never reports expiry; a report of expiry leaves the timer disabled.
+//@ func (*timer).checkExpiration props C02 C05
+//@   requires t.timer != nil
+//@   ensures implies(old(t.state) == timerStateOrphaned, !result && t.state == timerStateDisabled)
+//@   ensures implies(result, old(t.state) != timerStateOrphaned && t.state == timerStateDisabled)
+//@   ensures implies(!result && old(t.state) != timerStateOrphaned, t.state == old(t.state))
+//@   modifies t.state, t.runtimeTarget
+
+//@ func (*timer).enable props C02 C05
+//@   requires t.timer != nil
+//@   ensures t.state == timerStateEnabled
+//@   modifies t.state, t.target, t.runtimeTarget
+
+// ---------------------------------------------------------------------------
+// Fast recovery bookkeeping
+
+//@ func (*sender).enterFastRecovery props C05
+//@   requires s.sndSsthresh <= 1 << 40 && s.sndSsthresh >= 2
+//@   ensures s.fr.active && s.sndCwnd == s.sndSsthresh + 3 && s.fr.first == s.sndUna && s.fr.last == s.sndNxt - 1
+//@   ensures s.fr.maxCwnd == s.sndCwnd + s.outstanding
+//@   modifies s.fr.active, s.sndCwnd, s.fr.first, s.fr.last, s.fr.maxCwnd
+
+// The Reno configuration (the default controller): the sender's controller is the renoState
+// that points back to this sender.
+//@ define renoOf(s) = hastype(s.cc, *renoState) && as(s.cc, *renoState) != nil && as(s.cc, *renoState).s == s
+
+//@ func (*sender).leaveFastRecovery props C05
+//@   impl congestionControl *renoState
+//@   requires renoOf(s)
+//@   ensures !s.fr.active && s.dupAckCount == 0 && s.sndCwnd == s.sndSsthresh
+//@   ensures s.fr.last == s.sndNxt - 1 && s.fr.first == 0 && s.fr.maxCwnd == 0
+//@   modifies s.fr.active, s.fr.first, s.fr.last, s.fr.maxCwnd, s.dupAckCount, s.sndCwnd
+
+// A duplicate ACK outside recovery: acknowledges nothing new, carries no data, leaves the
+// window unchanged, and something is outstanding.
+//@ define isDupAck(s, seg) = seg.ackNumber == s.sndUna && seg.logicalLen() == 0 && s.sndWnd == seg.window && seg.ackNumber != s.sndNxt
+
+// Outside recovery the counter counts consecutive duplicate ACKs; the third one triggers fast
+// retransmit (rtx) and enters recovery with ssthresh = max(outstanding/2, 2), cwnd = ssthresh+3,
+// provided it is beyond the previous recovery point; nothing else triggers it.
+//@ func (*sender).checkDuplicateAck props C05
+//@   impl congestionControl *renoState
+//@   requires renoOf(s) && seg != nil && s.dupAckCount >= 0 && s.dupAckCount <= 3
+//@   requires -(1 << 40) <= s.outstanding && s.outstanding <= 1 << 40
+//@   ensures implies(!old(s.fr.active) && !old(isDupAck(s, seg)), !rtx && s.dupAckCount == 0 && !s.fr.active)
+//@   ensures implies(!old(s.fr.active) && old(isDupAck(s, seg)) && old(s.dupAckCount) < 2, !rtx && s.dupAckCount == old(s.dupAckCount) + 1 && !s.fr.active)
+//@   ensures implies(!old(s.fr.active) && old(isDupAck(s, seg)) && old(s.dupAckCount) >= 2 && old(s.fr.last.LessThan(seg.ackNumber)),
+//@             rtx && s.fr.active && s.dupAckCount == 0 && s.sndSsthresh >= 2 && s.sndCwnd == s.sndSsthresh + 3
+//@             && (s.sndSsthresh == old(s.outstanding) / 2 || s.sndSsthresh == 2))
+//@   ensures implies(rtx && !old(s.fr.active), old(isDupAck(s, seg)) && old(s.dupAckCount) >= 2)
+//@   ensures implies(old(s.fr.active) && s.fr.active && s.sndCwnd != old(s.sndCwnd), s.sndCwnd == old(s.sndCwnd) + 1 && s.sndCwnd <= old(s.fr.maxCwnd))
+//@   modifies s.dupAckCount, s.fr.active, s.fr.first, s.fr.last, s.fr.maxCwnd, s.sndCwnd, s.sndSsthresh
+
+// The retransmission timeout never drops below 200 ms.
+//@ func (*sender).updateRTO props C05
+//@   requires s.ep != nil && s.rto >= 200000000
+//@   ensures s.rto >= 200000000
+//@   modifies s.rtt.rttvar, s.rtt.srtt, s.srttInited, s.rto
